@@ -1,7 +1,12 @@
 """C12: keyed arrays are canonical -- sorting orders them and codecs refuse unordered data."""
 import hashlib
 import itertools
+import json
+import os
+import pickle
 import shutil
+import subprocess
+import sys
 
 from .. import codec, common
 from ..common import blit, coq_eval
@@ -115,6 +120,195 @@ def stateful_scenario(check, net, host, field, array_type, value, variants):
 			{'network': net.name, 'class': host.name, 'member': field.name, 'after_second_sort': codec.render(after)})
 
 
+# ---------------------------------------------------------------------------------------------------------------------
+# equal keys held by ONE object
+
+def twin_of(net, generator, array_type, variant):
+	"""An entry with the key of `variant` and (where the element has other members) other payload."""
+	other = generator.struct(net.by_name[array_type.element_type], 1)
+	return ('S', variant[1], [(name, value if name == array_type.sort_key else dict(other[2]).get(name, value)) for name, value in variant[2]])
+
+
+def build_shared(net, host_name, field_name, sort_key, value, sharing, positions):
+	"""The host object for `value` in which the entries at the two `positions` (equal keys) hold ONE key object (`key-object`: what a
+	program that looks an id up once and uses it for two entries builds) or ARE one entry object (`entry-object`)."""
+	obj = codec.to_object(net, host_name, value)
+	entries = getattr(obj, '_' + codec.fix_name(field_name))
+	first, second = positions
+	if sharing == 'entry-object':
+		entries[second] = entries[first]
+	else:
+		key_name = '_' + codec.fix_name(sort_key)
+		setattr(entries[second], key_name, getattr(entries[first], key_name))
+	return obj
+
+
+def shared_problem(net, host_name, field_name, value, sharing, positions):
+	"""P: a value whose keyed array holds two equal keys does not encode - as built, and after sort() - whichever objects hold the keys."""
+	field = next(f for f in codec.non_const(net.by_name[host_name]) if f.name == field_name)
+	array_type = field.field_type
+	entries = dict(value[2])[field_name]
+	keys = [codec.sort_key_of(net, array_type, e) for e in entries]
+	if keys[positions[0]] != keys[positions[1]]:
+		return None      # (not a value with equal keys: nothing to refuse)
+	accepted = []
+	for moment in ('as built', 'after sort()'):
+		obj = build_shared(net, host_name, field_name, array_type.sort_key, value, sharing, positions)
+		if moment != 'as built' and limited(obj.sort)[0] != 'ok':
+			continue
+		if limited(lambda o=obj: bytes(o.serialize()))[0] == 'ok':
+			accepted.append(moment)
+	if accepted:
+		what = 'one key object is attached to both entries' if sharing == 'key-object' else 'one entry object is listed twice'
+		return f'serialize accepts ({", ".join(accepted)}) an array in which entries {positions[0]} and {positions[1]} have equal keys ({what})'
+	return None
+
+
+def shared_object_cases(check, net, host, field, host_value, variants, generator):
+	array_type = field.field_type
+	distinct, seen = [], set()
+	for variant in variants:
+		key = codec.sort_key_of(net, array_type, variant)
+		if key not in seen:
+			seen.add(key)
+			distinct.append((key, variant))
+	distinct.sort(key=lambda pair: pair[0])
+	distinct = [variant for _, variant in distinct]
+	for index, variant in enumerate(distinct if check.tier == 'thorough' else distinct[:2] + distinct[-2:]):
+		twin = twin_of(net, generator, array_type, variant)
+		others = [entry for entry in distinct if entry is not variant]
+		arrangements = [('key-object', [variant, twin], (0, 1)), ('entry-object', [variant, variant], (0, 1))]
+		if len(others) >= 2:
+			# equal keys in the middle of an otherwise admissible array, and (second form) not adjacent before sort()
+			arrangements.append(('key-object', [others[0], variant, twin, others[-1]], (1, 2)))
+			arrangements.append(('entry-object' if index % 2 else 'key-object', [variant, others[0], twin if index % 2 == 0 else variant, others[-1]], (0, 2)))
+		for sharing, entries, positions in arrangements:
+			value = ('S', host_value[1], [(name, entries if name == field.name else member) for name, member in host_value[2]])
+			check.case(f'{net.name}:{host.name}.{field.name}:equal-keys-one-object:{sharing}', (codec.render(entries), positions))
+			try:
+				problem = shared_problem(net, host.name, field.name, value, sharing, positions)
+			except codec.Inadmissible:
+				continue
+			if problem:
+				check.fail(signature('encode-equal-keys-one-object', host.name, (sharing, codec.render(entries))),
+					f'{net.name}.{host.name}.{field.name}: {problem}',
+					{'network': net.name, 'class': host.name, 'member': field.name, 'op': 'equal-keys-one-object', 'sharing': sharing,
+						'positions': list(positions), 'input': codec.tree_to_json(value), 'entries': codec.render(entries)})
+
+
+# ---------------------------------------------------------------------------------------------------------------------
+# the same refusals in an interpreter started with -O (PYTHONOPTIMIZE): assert statements and `__debug__` branches are compiled away there
+
+OPTIMIZED_CHILD = r"""
+import importlib, json, pickle, sys
+sys.path[:0] = sys.argv[1:]
+outcomes = []
+for case in pickle.load(sys.stdin.buffer):
+	try:
+		if case[0] == 'ser':
+			bytes(pickle.loads(case[1]).serialize())
+		else:
+			getattr(importlib.import_module(case[1]), case[2]).deserialize(case[3])
+		outcomes.append('ok')
+	except ValueError:
+		outcomes.append('reject')
+	except Exception as ex:
+		outcomes.append('crash:' + type(ex).__name__)
+print(json.dumps({'debug': __debug__, 'optimize': sys.flags.optimize, 'outcomes': outcomes}))
+"""
+
+
+def optimized_outcomes(net, cases, extra_paths=(), interpreter=None):
+	"""Runs encode / decode cases in a child `python -O` (the check's own interpreter, same import path as the in-process implementation).
+	cases: ('ser', host class name, value tree) | ('des', host class name, bytes).  Objects are built here and handed over pickled."""
+	payload = []
+	for case in cases:
+		if case[0] == 'ser':
+			payload.append(('ser', pickle.dumps(codec.to_object(net, case[1], case[2]))))
+		else:
+			payload.append(('des', net.module.__name__, case[1], bytes(case[2])))
+	proc = subprocess.run(
+		[interpreter or sys.executable, '-O', '-c', OPTIMIZED_CHILD] + [str(path) for path in extra_paths],
+		input=pickle.dumps(payload), env=common.impl_env(), stdout=subprocess.PIPE, stderr=subprocess.PIPE, timeout=600, check=False)
+	try:
+		answer = json.loads(proc.stdout.decode('utf8').strip().splitlines()[-1])
+	except (IndexError, ValueError) as ex:
+		raise RuntimeError(f'optimized child interpreter failed (exit {proc.returncode}): {proc.stderr.decode("utf8", "replace")[-600:]}') from ex
+	if answer['debug'] or not answer['optimize'] or len(answer['outcomes']) != len(cases):
+		raise RuntimeError(f'optimized child interpreter did not run optimized: {answer}')
+	return answer['outcomes']
+
+
+def optimized_cases(net, host, field, host_value, variants):
+	"""A small family per keyed array: one strictly ascending control, the same entries reversed / with the last two exchanged, equal keys
+	first and last; the control's encoding as it is, with two element blocks exchanged and with a block repeated.
+	Yields (op, payload, expectation, label)."""
+	array_type = field.field_type
+	distinct, seen = [], set()
+	for variant in variants:
+		key = codec.sort_key_of(net, array_type, variant)
+		if key not in seen:
+			seen.add(key)
+			distinct.append((key, variant))
+	distinct.sort(key=lambda pair: pair[0])
+	chosen = [variant for _, variant in (distinct[:2] + distinct[-1:] if len(distinct) >= 3 else distinct)]
+	if len(chosen) < 2:
+		return
+
+	def hosting(entries):
+		return ('S', host_value[1], [(name, entries if name == field.name else member) for name, member in host_value[2]])
+	yield 'ser', hosting(chosen), 'ok', 'strictly ascending'
+	yield 'ser', hosting(chosen[::-1]), 'reject', 'descending'
+	if len(chosen) >= 3:
+		yield 'ser', hosting([chosen[0], chosen[2], chosen[1]]), 'reject', 'last two exchanged'
+	yield 'ser', hosting([chosen[0], chosen[0]] + chosen[1:]), 'reject', 'first key twice'
+	yield 'ser', hosting(chosen + [chosen[-1]]), 'reject', 'last key twice'
+	good = impl_ser(codec.to_object(net, host.name, hosting(chosen)))
+	if not good.startswith('ok:'):
+		return
+	data = bytes.fromhex(good.split('|')[0][3:])
+	blocks = [bytes(codec.to_object(net, array_type.element_type, e).serialize()) for e in chosen]
+	joined = b''.join(blocks)
+	position = data.find(joined)
+	if position < 0 or data.find(joined, position + 1) >= 0 or len(set(len(block) for block in blocks)) != 1:
+		return
+
+	def rebuilt(new_blocks):
+		return data[:position] + b''.join(new_blocks) + data[position + len(joined):]
+	yield 'des', data, 'ok', 'strictly ascending'
+	yield 'des', rebuilt([blocks[1], blocks[0]] + blocks[2:]), 'reject', 'first two element blocks exchanged'
+	yield 'des', rebuilt(blocks[::-1]), 'reject', 'element blocks reversed'
+	yield 'des', rebuilt([blocks[0]] + blocks[:-1]), 'reject', 'first element block twice'
+	yield 'des', rebuilt(blocks[:-1] + [blocks[-2]]), 'reject', 'last-but-one element block twice'
+
+
+def run_optimized(check, net, pending, extra_paths=()):
+	"""P, in an optimized interpreter: encoding a value whose keyed array is out of order or holds two equal keys fails, and decoding such
+	bytes fails (the strictly ascending control of every array must still pass, so that a child that refuses everything is noticed)."""
+	cases = []
+	for host, field, host_value, variants in pending:
+		try:
+			for op, payload, expectation, label in optimized_cases(net, host, field, host_value, variants):
+				cases.append((op, host.name, payload, expectation, label, field.name))
+		except codec.Inadmissible:
+			continue
+	if not cases:
+		return
+	outcomes = optimized_outcomes(net, [case[:3] for case in cases], extra_paths)
+	for (op, host_name, payload, expectation, label, member), observed in zip(cases, outcomes):
+		shown = codec.render(dict(payload[2])[member]) if op == 'ser' else payload.hex()
+		check.case(f'{net.name}:{host_name}.{member}:python-O:{op}:{expectation}', shown)
+		if (observed == 'ok') == (expectation == 'ok'):
+			continue
+		what = {'ser': 'serialize', 'des': 'deserialize'}[op]
+		refused = 'accepts' if observed == 'ok' else f'refuses ({observed})'
+		check.fail(signature(f'python-O-{op}-order', host_name, shown),
+			f'{net.name}.{host_name}.{member}: in an interpreter started with -O, {what} {refused} '
+			f'{"a value" if op == "ser" else "bytes"} whose keyed entries are: {label}',
+			{'network': net.name, 'class': host_name, 'member': member, 'op': f'python-O-{op}', 'expected': expectation, 'observed': observed,
+				'input': codec.tree_to_json(payload) if op == 'ser' else payload.hex(), 'arrangement': label, 'shown': shown[:600]})
+
+
 def signature(kind, name, payload):
 	return f'{kind}:{name}:' + hashlib.sha256(repr(payload).encode('utf8')).hexdigest()[:12]
 
@@ -124,7 +318,7 @@ class _Discard(list):
 		pass
 
 
-def run_array(check, net, host, field, exprs, expected, meta):
+def run_array(check, net, host, field, exprs, expected, meta, pending=None):
 	rng = check.rng
 	array_type = field.field_type
 	element_model = net.by_name[array_type.element_type]
@@ -151,6 +345,10 @@ def run_array(check, net, host, field, exprs, expected, meta):
 			subsets.append([twin, variant])
 	subsets.append([variants[0], variants[0], variants[-1]])
 	subsets.append([variants[0], variants[-1], variants[-1]])
+	# equal keys held by one object (one key object on two entries, one entry object twice); the order checks once more under python -O
+	shared_object_cases(check, net, host, field, host_value, variants, generator)
+	if pending is not None:
+		pending.append((host, field, host_value, variants))
 	for entries in subsets:
 		keys = [codec.sort_key_of(net, array_type, e) for e in entries]
 		distinct = len(set(keys)) == len(keys)
@@ -246,7 +444,10 @@ def run(check, unrecognised):
 	check.assume += ['restriction and namespace state entries named in the property are not generated into the shipped sc/nc modules '
 		'(all_generated.cats excludes state schemas); they are covered by the theorems (any schema) and, after the C18 fix, can be generated: see C15']
 	check.extra['rule'] = 'every keyed array of sc and nc x subsets (with replacement) of key-probing entries x up to 24 permutations -> sort(), serialize; ' \
-		'element blocks of valid encodings permuted/duplicated -> deserialize; distinct = distinct (array, entry order)'
+		'element blocks of valid encodings permuted/duplicated -> deserialize; equal keys held by ONE object (a key object attached to two ' \
+		'entries, an entry object listed twice; first, in the middle, apart before sort()) -> serialize as built and after sort(); per array a ' \
+		'control + unordered + duplicated values and byte strings once more in a child interpreter started with -O; ' \
+		'distinct = distinct (array, entry order)'
 	if unrecognised.get('ArrayOps'):
 		check.notes.append(f'anchors not recognised, pinned operators used: {unrecognised["ArrayOps"]}')
 	check.prove('C12.v')
@@ -258,11 +459,12 @@ def run(check, unrecognised):
 		except Exception as ex:  # pylint: disable=broad-except
 			check.fail(f'module-import:{name}', f'codec module or schema of {name} cannot be loaded: {type(ex).__name__}: {ex}', {'network': name})
 			continue
-		exprs, expected, meta = [], [], []
+		exprs, expected, meta, pending = [], [], [], []
 		for host, field in keyed_arrays(net):
 			arrays_seen.append(f'{name}.{host.name}.{field.name} key={field.field_type.sort_key}')
-			run_array(check, net, host, field, exprs, expected, meta)
+			run_array(check, net, host, field, exprs, expected, meta, pending)
 			nested_scenario(check, net, host, field)
+		run_optimized(check, net, pending)
 		compare_with_model(check, net, exprs, expected, meta, f'c12{name}')
 	run_state_entries(check, arrays_seen)
 	check.extra['keyed_arrays'] = arrays_seen
@@ -386,20 +588,41 @@ def run_state_entries(check, arrays_seen):
 		net = c15.load_generated(scratch, package, 0, schema)
 		net.name = 'symbol-state'
 		shipped = {model.name for model in codec.load_net('symbol').models}
-		exprs, expected, meta = [], [], []
+		exprs, expected, meta, pending = [], [], [], []
 		for host, field in keyed_arrays(net):
 			if host.name in shipped:
 				continue
 			arrays_seen.append(f'{net.name}.{host.name}.{field.name} key={field.field_type.sort_key}')
-			run_array(check, net, host, field, exprs, expected, meta)
+			run_array(check, net, host, field, exprs, expected, meta, pending)
 			nested_scenario(check, net, host, field)
+		run_optimized(check, net, pending, extra_paths=[scratch / 'pkg'])
 		compare_with_model(check, net, exprs, expected, meta, 'c12state')
 	finally:
 		shutil.rmtree(scratch, ignore_errors=True)
 
 
+BASELINE_INTERPRETER = '/venv/bin/python'      # (run.py re-executes this check under it; a replay started by another python uses it for the -O child)
+
+
 def replay(data):
+	"""Re-evaluates the recorded input on the implementation of the current tree where the record carries it (equal keys held by one
+	object; the python -O family); other records are printed."""
 	codec.setup_paths()
 	info = data['replay']
 	print('replay data:', {k: str(v)[:300] for k, v in info.items()})
-	return 1
+	op = info.get('op', '')
+	if info.get('network') not in ('symbol', 'nem') or not (op == 'equal-keys-one-object' or op.startswith('python-O-')):
+		return 1
+	net = codec.load_net(info['network'])
+	if op == 'equal-keys-one-object':
+		problem = shared_problem(net, info['class'], info['member'], codec.tree_from_json(info['input']), info['sharing'], info['positions'])
+	else:
+		case = ('ser', info['class'], codec.tree_from_json(info['input'])) if op == 'python-O-ser' else ('des', info['class'], bytes.fromhex(info['input']))
+		interpreter = BASELINE_INTERPRETER if os.path.exists(BASELINE_INTERPRETER) else sys.executable
+		observed = optimized_outcomes(net, [case], interpreter=interpreter)[0]
+		print(f'{interpreter} -O:', observed, '(the property expects', info['expected'] + ')')
+		problem = None if (observed == 'ok') == (info['expected'] == 'ok') else \
+			f'in an interpreter started with -O the {"value" if case[0] == "ser" else "bytes"} with keyed entries "{info["arrangement"]}" ' \
+			f'{"accepted" if observed == "ok" else "refused"}'
+	print('property:', f'VIOLATED ({info["network"]}.{info["class"]}.{info["member"]}: {problem})' if problem else 'holds')
+	return 1 if problem else 0
